@@ -74,6 +74,14 @@ CHECKS["C14"] = (
     "3/C14",
 )
 
+CHECKS["C12"] = (
+    "exploration",
+    "deterministic simulation: seeded multi-layer histories with injected corruption/deletion of the disk layers' files under a virtual clock, per-key 'latest value / what each layer may hold' model, virtual-time and real-time liveness watchdogs",
+    "Seeded search over histories of the full multi-layer API on 2-3 layers with a tiny first layer (eviction in almost every run), every promotion strategy, validation hooks on/off, interleaved with disk faults and clock advances; each read is judged against the latest put (never an older value, nothing only when no layer certainly holds it), no layer answers after remove/clear, validated reads return only bytes hashing to the key and drop detected corruption everywhere, and every call returns (a run that blocks is reported as a hang with its history).",
+    "Trusted: the model's relaxations (possible eviction, tainted keys not judged on un-validated reads, deleted files may surface as I/O errors from single-layer reads), libc/tokio virtual clocks, the 4 s real-time watchdog for blocking deadlocks.",
+    "3/C12",
+)
+
 PENDING = {}
 
 
